@@ -62,6 +62,12 @@ static const struct fmt_s dfmts[] = {
 	{"%mmo %db", "%mmo %db", P_UNITS, U_MO | U_B},
 	{"%Yy %mmo %db", "%Yy %mmo %db", P_UNITS, U_Y | U_MO | U_B},
 	{"%Yy %db", "%Yy %db", P_UNITS, U_Y | U_B},
+	/* dates in sub-day units (ddiff prints them: 2012-01-01 2012-01-03 -f %H = 48) */
+	{"%Hh", "%Hh", P_UNITS, U_H},
+	{"%Mm", "%Mm", P_UNITS, U_MI},
+	{"%Ss", "%Ss", P_UNITS, U_S},
+	{"%dd %Hh %Mm %Ss", "%dd %Hh %Mm %Ss", P_UNITS, U_D | U_H | U_MI | U_S},
+	{"%ww %Hh", "%ww %Hh", P_UNITS, U_W | U_H},
 };
 #define NDFMT	((int)(sizeof(dfmts) / sizeof(*dfmts)))
 
@@ -246,7 +252,9 @@ outside(const struct fmt_s *f, const struct val_s *e, const struct val_s *l, int
 	if ((u & (U_Y | U_Q | U_MO)) && pe->d > 28) {
 		return SK_DOM;
 	}
-	if ((u & U_B) && !(pe->isbd && pl->isbd)) {
+	if ((u & U_B) && !(pe->isbd && (pl->isbd || (dt == 1 && (u & (U_H | U_MI | U_S)))))) {
+		/* with time units the rest can carry a date-time over the weekend, so only the
+		 * earlier operand has to be a business day there */
 		return SK_BD;
 	}
 	if ((u & (U_Y | U_W | U_MO | U_Q)) == (U_Y | U_W) && pe->isow == 53) {
@@ -261,7 +269,7 @@ outside(const struct fmt_s *f, const struct val_s *e, const struct val_s *l, int
 		}
 		return NULL;
 	}
-	if (!(u & (U_D | U_B))) {
+	if (!(u & (U_D | U_B | U_H | U_MI | U_S))) {
 		int ok;
 		if (u & U_W) {
 			ok = !(u & (U_Y | U_MO)) && (l->rd - e->rd) % 7 == 0;
@@ -313,7 +321,8 @@ combo_class(const struct fmt_s *f, durfmt_t df, int cal, int dt)
 		}
 		return CC_XCAL;
 	case DT_DURYD:
-		return cal == CAL_YMD ? CC_IN : CC_XCAL;
+		/* year-day operands: nominally the same calendar as the years+days difference */
+		return cal == CAL_YMD || (cal == CAL_YD && !(f->units & U_B)) ? CC_IN : CC_XCAL;
 	case DT_DURYWD:
 		return cal == CAL_YWD ? CC_IN : CC_XCAL;
 	default:
@@ -546,6 +555,14 @@ do_pair(const struct fmt_s *f, durfmt_t df, int fi, int cal, int dt, const struc
 		++*c_ywdb;
 		return 0;
 	}
+	if (dt != 1 && (f->units & (U_H | U_MI | U_S))) {
+		/* reading: dadd leaves a date-only value alone when hours, minutes or seconds are added, whole days' worth
+		 * included, and the repository's tests pin that (test/dadd.029, dadd.030: `dadd 2001-01-05 48h` = 2001-01-05;
+		 * dtadd.054); so a date difference printed in such units cannot be applied to a date: outside, counted */
+		EX_CTR(c_dh, "skipped:hours/minutes/seconds applied to a date-only value (dadd ignores them by design: test/dadd.029, dadd.030, dtadd.054)");
+		++*c_dh;
+		return 0;
+	}
 	if ((why = outside(f, e, l, dt)) != NULL) {
 		count_skip(why);
 		if (why == SK_BD) {
@@ -758,6 +775,10 @@ tdays(int *rd)
 	rd[n++] = rc_rd(2012, 7, 1);
 	rd[n++] = rc_rd(2000, 6, 15);
 	rd[n++] = rc_rd(2000, 10, 29);
+	/* two full weeks, so that every pair of weekdays occurs with every pair of times of day */
+	for (int d = rc_rd(2026, 2, 2), k = 0; k < 14; k++) {
+		rd[n++] = d + k;
+	}
 	/* sort ascending (insertion) */
 	for (int i = 1; i < n; i++) {
 		int x = rd[i], j = i;
@@ -913,7 +934,7 @@ main(int argc, char *argv[])
 		"(v) each of these days as a date-only operand against every one of the date-times (civil and epoch-held) x 7 whole-day formats; "
 		"(iv) binding: %d anchor days x distance -%d..%d x %d formats (ymd) + 6 formats in the other calendars through the ddiff and dadd binaries",
 		nwin, WIN_YEARS, ex.thorough ? "1997-2004, 1897-1904, 1601-1608, 4088-4095" : "1998-2001", NDFMT, K, NLONG,
-		"40", NTFMT, ex.thorough ? NANCHOR : 6, BIND_K, BIND_K, NDFMT);
+		"54", NTFMT, ex.thorough ? NANCHOR : 6, BIND_K, BIND_K, NDFMT);
 	ex_meta("binding", "ddiff ANCHOR < partners (one process per anchor and format) byte-compared with the included pipeline; "
 		"dadd EARLIER <printed duration> (one process per pair) byte-compared with dt_dtadd's result at library level");
 
